@@ -3,8 +3,8 @@
    protocol table: model/ProtoSpec.v; generated tables: gen/ProtoTable.v, gen/Consts.v. *)
 From Coq Require Import List NArith ZArith Bool.
 From Coq Require String.
-From NSQV Require Import gen.Consts gen.ProtoTable model.Judge model.Names model.Num model.Proto model.ProtoSpec
-     proofs.NamesProofs proofs.ProtoProofs proofs.ProtoTableProofs proofs.ProtoLineProofs.
+From NSQV Require Import gen.Consts gen.ProtoTable gen.AcceptTable model.Judge model.Names model.Num model.Proto model.ProtoSpec
+     model.AcceptLoop proofs.NamesProofs proofs.ProtoProofs proofs.ProtoTableProofs proofs.ProtoLineProofs proofs.AcceptProofs.
 Import ListNotations.
 Open Scope Z_scope.
 
@@ -203,6 +203,77 @@ Theorem C09_isolation_complete : forall cf pa pb sched st bs b,
 Proof. exact isolation_complete. Qed.
 Print Assumptions C09_isolation_complete.
 
+(* ------------------------------------------------------------------ the accept loop stays up *)
+(* protocol.TCPServer, the loop that hands new connections to the protocol handler (nsqd and
+   nsqlookupd run it on their TCP listener; when it returns an error, Main returns and the
+   daemon goes down for every client).  A script is the list of results the listener's
+   successive Accept calls return.  An error whose Temporary() method answers true (EMFILE,
+   ENFILE: out of descriptors during a burst of connections; EINTR; a deadline) is retried -
+   whether or not it is also a timeout, whatever else is true of it - and no other error is. *)
+Theorem C09_accept_temporary_is_retried : forall e,
+  decide (AErr e) = DRetry <-> e_temporary e = Some true.
+Proof. exact decide_retry_iff. Qed.
+Print Assumptions C09_accept_temporary_is_retried.
+
+Theorem C09_accept_decision_ignores_timeout : forall t o o' c,
+  decide (AErr (mkAErr t o c)) = decide (AErr (mkAErr t o' c)).
+Proof. exact decide_ignores_timeout. Qed.
+Print Assumptions C09_accept_decision_ignores_timeout.
+
+(* While nothing but connections and temporary errors has come out of Accept - in any
+   number and any order - every connection offered has been handed to the handler, every
+   result has been consumed and the loop has NOT returned: the daemon stays up. *)
+Theorem C09_accept_survives_temporary_errors : forall script,
+  forallb passes script = true ->
+  run_accept script = mkAOut (N.of_nat (List.length script)) (conn_ids script) RRunning false.
+Proof. exact run_all_pass. Qed.
+Print Assumptions C09_accept_survives_temporary_errors.
+
+(* a temporary error anywhere changes nothing for the connections before and after it *)
+Theorem C09_accept_temporary_is_transparent : forall e pre post,
+  e_temporary e = Some true ->
+  o_served (run_accept (pre ++ AErr e :: post)) = o_served (run_accept (pre ++ post))
+  /\ o_ret (run_accept (pre ++ AErr e :: post)) = o_ret (run_accept (pre ++ post))
+  /\ o_waits (run_accept (pre ++ AErr e :: post)) = o_waits (run_accept (pre ++ post)).
+Proof. exact temporary_transparent. Qed.
+Print Assumptions C09_accept_temporary_is_transparent.
+
+Theorem C09_accept_offered_is_served : forall pre id post,
+  forallb passes pre = true ->
+  In id (o_served (run_accept (pre ++ AConn id :: post))).
+Proof. exact offered_is_served. Qed.
+Print Assumptions C09_accept_offered_is_served.
+
+(* The loop ends at the first result that is neither, consuming nothing after it, with
+   exactly the connections offered before it served: on net.ErrClosed (the listener was
+   closed: shutdown) it returns nil AFTER waiting for the handlers it started; any other
+   error is returned.  And it returns in no other way. *)
+Theorem C09_accept_stops_at_first_permanent_error : forall pre s post,
+  forallb passes pre = true -> passes s = false ->
+  run_accept (pre ++ s :: post)
+  = mkAOut (N.of_nat (S (List.length pre))) (conn_ids pre) (stop_ret s) (stop_waits s).
+Proof. exact run_stop. Qed.
+Print Assumptions C09_accept_stops_at_first_permanent_error.
+
+Theorem C09_accept_returns_only_then : forall script,
+  o_ret (run_accept script) <> RRunning ->
+  exists pre s post, script = pre ++ s :: post /\ forallb passes pre = true /\ passes s = false
+    /\ o_consumed (run_accept script) = N.of_nat (S (List.length pre))
+    /\ o_served (run_accept script) = conn_ids pre.
+Proof. exact returns_only_at_stop. Qed.
+Print Assumptions C09_accept_returns_only_then.
+
+(* the error branch of TCPServer in the source (conditions and actions in order, the
+   statements after the loop), read as a function of the error, is the model's decision for
+   EVERY error; an accepted connection is registered in the wait group, then handled in a
+   goroutine of its own; nsqd and nsqlookupd run this loop on their TCP listener *)
+Theorem C09_accept_loop_is_source :
+  (forall e, table_decide accept_err_branches accept_err_default accept_after_loop e = dec_of (decide (AErr e)))
+  /\ accept_ok_steps = model_ok_steps
+  /\ accept_call = name_listener_Accept /\ accept_conn_var = name_clientConn /\ accept_loop_users = users_expected.
+Proof. exact (conj table_is_decide (conj ok_steps_match accept_call_matches)). Qed.
+Print Assumptions C09_accept_loop_is_source.
+
 (* ------------------------------------------------------------------ non-vacuity *)
 Definition ex_cfg : cfg := default_cfg 64 384 10.
 Definition yes : oracle := fun _ _ => true.
@@ -322,3 +393,28 @@ Example C09_witness_codes :
                      (length stream) (init_state ex_cfg) stream)
   = [Some (CSub, None, true); Some (CFin, Some E_FIN_FAILED, true); Some (CRdy, Some E_INVALID, false)].
 Proof. vm_compute. reflexivity. Qed.
+
+(* the accept loop on concrete scripts.  The witness of seeded change C09-m10: a connection,
+   then Accept fails with EMFILE (Temporary() true, Timeout() false), then another
+   connection, then the listener is closed: both connections are served, the loop returns
+   nil after waiting for them.  The hypotheses of the theorems above are satisfiable. *)
+Definition ex_emfile : aerr := mkAErr (Some true) (Some false) false.
+Definition ex_deadline : aerr := mkAErr (Some true) (Some true) false.
+Definition ex_closed : aerr := mkAErr (Some false) (Some false) true.
+Definition ex_einval : aerr := mkAErr (Some false) (Some false) false.
+Definition ex_plain : aerr := mkAErr None None false.
+Example C09_witness_accept_emfile :
+  run_accept [AConn 0; AErr ex_emfile; AConn 2; AErr ex_closed]%N = mkAOut 4 [0; 2]%N RNil true
+  /\ run_accept [AConn 0; AErr ex_emfile; AErr ex_deadline; AConn 3]%N = mkAOut 4 [0; 3]%N RRunning false
+  /\ forallb passes [AConn 0; AErr ex_emfile; AErr ex_deadline; AConn 3]%N = true
+  /\ e_temporary ex_emfile = Some true.
+Proof. repeat split; vm_compute; reflexivity. Qed.
+
+(* a permanent error is returned at once and nothing after it is consumed; an error without
+   a Temporary method is permanent *)
+Example C09_witness_accept_permanent :
+  run_accept [AConn 0; AErr ex_einval; AConn 2; AErr ex_closed]%N = mkAOut 2 [0]%N (RErr ex_einval) false
+  /\ run_accept [AErr ex_plain; AConn 1]%N = mkAOut 1 [] (RErr ex_plain) false
+  /\ passes (AErr ex_einval) = false /\ passes (AErr ex_closed) = false
+  /\ o_ret (run_accept [AConn 0; AErr ex_closed]%N) <> RRunning.
+Proof. repeat split; try (vm_compute; reflexivity). vm_compute. discriminate. Qed.
